@@ -325,7 +325,7 @@ def canon_go(script, go):
                 out.append(("ok",) if o.get("st") == "ok" else (o.get("st"),))
             else:
                 out.append(("peer", o.get("st")))
-        elif op in ("send", "shutdown", "peer_close", "write_fail", "new_client"):
+        elif op in ("send", "shutdown", "peer_close", "write_fail", "new_client", "gate_payload", "release_payload"):
             out.append((o.get("st"),))
         elif op == "expect_frame":
             f = _frame_go(o, ht)
@@ -388,6 +388,8 @@ def canon_model(script, line):
         elif t[0] == "caller":
             if t[1] == "ok":
                 out.append(("caller", "ok", int(t[2]), int(t[3]), model_hash(ht, int(t[3]), int(t[4]))))
+            elif t[1] == "oversize":
+                out.append(("caller", "oversize", int(t[2])))
             elif t[1] == "zero":
                 out.append(("caller", "ok", 0, 0, phash(b"")))
             elif t[1] == "closed" and op in ("wait_caller", "cancel") and st.get("_shutdown"):
@@ -421,6 +423,8 @@ def model_callers(fin, ht):
             continue
         if t[1] == "ok":
             res[c] = ("ok", int(t[2]), int(t[3]), model_hash(ht, int(t[3]), int(t[4])))
+        elif t[1] == "oversize":
+            res[c] = ("oversize", int(t[2]))
         elif t[1] == "zero":
             res[c] = ("ok", 0, 0, phash(b""))
         else:
@@ -430,6 +434,11 @@ def model_callers(fin, ht):
 
 def shutdown_callers(script):
     return {s["caller"] for s in script["steps"] if s["op"] == "shutdown"}
+
+
+def _oversize_ok(go_res, typ):
+    """a reply longer than 640 KiB: (typ, nil, nil) before /repo 62a2d82 (F3), an error since — C10 judges that, not we"""
+    return go_res in (("ok", typ, 0, phash(b"")), ("other",))
 
 
 def compare(script, go, mline):
@@ -453,6 +462,8 @@ def compare(script, go, mline):
             # Shutdown returns nil where the model's caller holds the (acceptable) reply
             if a == ("caller", "nil") and b[:2] == ("caller", "ok"):
                 continue
+        if b[:2] == ("caller", "oversize") and a[0] == "caller" and _oversize_ok(a[1:], b[2]):
+            continue
         if a != b:
             diffs.append("step %d %s: go=%s model=%s" % (i, st["op"], a, b))
     # header bytes of the frames the model wrote vs the header fields Go's peer parsed
@@ -482,6 +493,8 @@ def compare(script, go, mline):
                 diffs.append("final: caller %d blocked in the model, Go after cleanup: %s" % (c, gr))
         elif c in shut and gr == ("nil",) and mr[0] == "ok":
             pass
+        elif mr[0] == "oversize" and _oversize_ok(gr, mr[1]):
+            pass
         elif gr != mr:
             diffs.append("final: caller %d go=%s model=%s" % (c, gr, mr))
     # scripted handler invocations
@@ -508,7 +521,7 @@ def go_view(script, go):
     frames, peer = [], []
     for st, o in zip(script["steps"], go.get("obs") or []):
         op = st["op"]
-        if op == "expect_frame" and o.get("st") not in ("none", None):
+        if op in ("expect_frame", "expect_rest") and o.get("st") not in ("none", None, "no-header", "broken"):
             frames.append(o)
         elif op == "drain":
             frames += list(o.get("frames") or [])
@@ -531,7 +544,13 @@ def go_view(script, go):
         elif st["op"] == "shutdown":
             reqs[st["caller"]] = dict(typ=T_CLOSE, len=0, hash=phash(b""), api="Shutdown", msgid=0)
     callers = {int(c): r for c, r in ((go.get("final") or {}).get("callers") or {}).items()}
-    return dict(frames=frames, peer=peer, callers=callers, reqs=reqs)
+    # what each caller's result looked like when the script first inspected it (the bytes SendMessage returned
+    # are retained by the harness and hashed again for the final observation, after all later replies)
+    first_seen = {}
+    for st, o in zip(script["steps"], go.get("obs") or []):
+        if st["op"] in ("wait_caller", "cancel") and o.get("res") == "ok" and st["caller"] not in first_seen:
+            first_seen[st["caller"]] = o
+    return dict(frames=frames, peer=peer, callers=callers, reqs=reqs, first_seen=first_seen)
 
 
 def wire_id_of(view, c):
@@ -556,7 +575,13 @@ def pred_c03(view):
             bad.append(("unsolicited-delivered-as-reply",
                         "caller %d (request id %s) got a message of type %d as its reply" % (c, ids, res["typ"])))
             continue
-        if not cands:
+        fs = (view.get("first_seen") or {}).get(c)
+        if fs is not None and (fs.get("len"), fs.get("hash")) != (res.get("len"), res.get("hash")):
+            bad.append(("reply-bytes-changed-after-return",
+                        "the bytes SendMessage returned to caller %d (len %s, hash %s when first inspected) read as (len %s, hash %s) "
+                        "after later replies were delivered: the returned slice is not the caller's own" % (
+                            c, fs.get("len"), fs.get("hash"), res.get("len"), res.get("hash"))))
+        elif not cands:
             bad.append(("reply-not-from-peer", "caller %d got (typ %d, len %d, hash %s) which the peer never sent" % (
                 c, res["typ"], res["len"], res["hash"])))
         elif not mine:
